@@ -315,6 +315,12 @@ func (s *Scheme) runDKG(ctx context.Context, membership *membership, dkgProtocol
 		}
 
 		s.lock.Lock()
+		// KeyGen may have returned (and cleaned up) already, in which case the instance must not be registered
+		if ctx.Err() != nil {
+			s.lock.Unlock()
+			resultChan <- mpcResult{err: ctx.Err()}
+			return
+		}
 		_, rbcExisted := s.rbcInProgress[string(dkgTopicHash)]
 		s.rbcInProgress[string(dkgTopicHash)] = rbc.Receive
 		s.lock.Unlock()
